@@ -15,10 +15,41 @@ from .model import AnalysisError, Model
 PROPS = ["C%02d" % i for i in range(1, 21)]
 
 
+_MODEL_IDS = {}
+
+
+def _memoise_rule_modules():
+    """Rule modules share obligations by running each other on a sub-collector; the same module is reached along several
+    chains (C06 -> C07 -> C19 -> C18 -> C17 ...).  Each module's `run` is computed once per (model, tier, options) and its
+    obligations are handed out as copies (sharers re-label them)."""
+    import copy
+
+    for p in PROPS:
+        m = importlib.import_module(f"nslsa.rules.{p.lower()}")
+        orig = m.run
+        if getattr(orig, "_memoised", False):
+            continue
+        cache = {}
+
+        def wrapped(model, col, tier="quick", *a, _orig=orig, _cache=cache, **kw):
+            uid = _MODEL_IDS.setdefault(id(model), (len(_MODEL_IDS), model))[0]  # the entry keeps the model alive: ids are not re-used
+            key = (uid, tier, a, tuple(sorted(kw.items())))
+            if key not in _cache:
+                n0 = len(col.obligations)
+                _orig(model, col, tier, *a, **kw)
+                _cache[key] = [copy.copy(o) for o in col.obligations[n0:]]
+            else:
+                col.obligations.extend(copy.copy(o) for o in _cache[key])
+
+        wrapped._memoised = True
+        m.run = wrapped
+
+
 def run_rules(prop: str, root: str, tier: str):
     """Run the rule set of one property on the tree at `root`.
     Returns (collector, rules module).  Raises AnalysisError."""
     mod = importlib.import_module(f"nslsa.rules.{prop.lower()}")
+    _memoise_rule_modules()
     model = Model(root)
     col = report.Collector(prop)
     mod.run(model, col, tier)
